@@ -271,6 +271,33 @@ func c13Mixed(r *Run) {
 	}
 }
 
+// a name bound to nil in an inner scope (a nil list item) while
+// an outer scope binds the same name: every position sees the inner nil - the positions that go to the expression
+// language and the ones that go to the path resolver alike
+func c13NilShadow(r *Run) {
+	fsys := fstest.MapFS{
+		"loop.vuego": &fstest.MapFile{Data: []byte(`<div v-for="label in labels"><b v-if="label">if</b><b v-else-if="label == nil">elseif-nil</b><b v-else>else</b>` +
+			`<i v-show="label">s</i><u :title="label">u</u><em>[{{ label }}]</em><s>[{{ label != nil ? label : 'none' }}]</s><q>[{{ label | default("dflt") }}]</q><a :href="label == nil ? 'nil' : 'set'">a</a></div>`)},
+		"inc.vuego":  &fstest.MapFile{Data: []byte(`<template include="c.vuego" :label="missing.path"></template>`)},
+		"c.vuego":    &fstest.MapFile{Data: []byte(`<div><b v-if="label">if</b><b v-else>else</b><em>[{{ label }}]</em><s>[{{ label != nil ? label : 'none' }}]</s><a :href="label == nil ? 'nil' : 'set'">a</a></div>`)},
+	}
+	norm := func(s string) string { return strings.Join(strings.Fields(s), "") }
+	for _, c := range []struct{ name, page, want string }{
+		{"loop-item", "loop.vuego", norm(`<div><b>if</b><i>s</i><u title="first">u</u><em>[first]</em><s>[first]</s><q>[first]</q><a href="set">a</a></div>` +
+			`<div><b>elseif-nil</b><i style="display:none;">s</i><u>u</u><em>[]</em><s>[none]</s><q>[dflt]</q><a href="nil">a</a></div>`)},
+	} {
+		var buf bytes.Buffer
+		err := vuego.NewVue(fsys).Render(&buf, c.page, map[string]any{"label": "fallback", "labels": []any{"first", nil}})
+		got := norm(buf.String())
+		r.Eval("nil-shadow:"+c.name, true, nil)
+		r.Count("stream:nil-shadow(oracle only)")
+		if err != nil || got != c.want {
+			r.Fail("a name bound to nil in an inner scope does not shadow the outer binding in every position", map[string]string{"oracle": "nil-shadow", "case": c.name},
+				map[string]any{"page": string(fsys[c.page].Data), "output": got, "expected": c.want, "err": fmt.Sprint(err)})
+		}
+	}
+}
+
 func init() { streams["C13"] = runC13 }
 
 func runC13(r *Run) {
@@ -346,6 +373,7 @@ func runC13(r *Run) {
 	}
 	c13Floats(r)
 	c13Mixed(r)
+	c13NilShadow(r)
 	// ---------- positions ----------
 	n := 900
 	if r.Thorough() {
